@@ -99,3 +99,83 @@ inductive WFDecl : Decl → Prop
 def WFDecls (ds : Schema) : Prop := ∀ d ∈ ds, WFDecl d
 
 end SymbolVerif.Cats
+
+/-! ### attributes -/
+
+namespace SymbolVerif.Cats
+open SymbolVerif.Cats.Lexer
+
+/-- `@is_bitwise` -/
+inductive WFEnumAttr : Attribute → Prop
+  | bitwise : WFEnumAttr ⟨"is_bitwise", []⟩
+
+/-- one entry of `@comparer(…)`: a member, optionally with the transform -/
+def comparerValues : List (String × Bool) → List Scalar
+  | [] => []
+  | (p, true) :: rest => .str p :: .str "ripemd_keccak_256" :: comparerValues rest
+  | (p, false) :: rest => .str p :: .none :: comparerValues rest
+
+/-- the attribute forms of a struct, with the value lists the parser produces -/
+inductive WFStructAttr : Attribute → Prop
+  | aligned : WFStructAttr ⟨"is_aligned", []⟩
+  | sizeImplicit : WFStructAttr ⟨"is_size_implicit", []⟩
+  | size (p : String) : IsPropName p → WFStructAttr ⟨"size", [.str p]⟩
+  | initializes (p c : String) : IsPropName p → IsConstantName c → WFStructAttr ⟨"initializes", [.str p, .str c]⟩
+  | discriminator (p : String) (ps : List String) : IsPropName p → (∀ q ∈ ps, IsPropName q) →
+      WFStructAttr ⟨"discriminator", .str p :: ps.map .str⟩
+  | comparer (e : String × Bool) (es : List (String × Bool)) : IsPropName e.1 → (∀ x ∈ es, IsPropName x.1) →
+      WFStructAttr ⟨"comparer", comparerValues (e :: es)⟩
+
+/-- the attribute forms of a member (lark's `None` placeholders included) -/
+inductive WFFieldAttr : Attribute → Prop
+  | byteConstrained : WFFieldAttr ⟨"is_byte_constrained", []⟩
+  | alignment (n : Nat) : WFFieldAttr ⟨"alignment", [.int n, .none, .none]⟩
+  | alignmentPadLast (n : Nat) : WFFieldAttr ⟨"alignment", [.int n, .none, .str "pad_last"]⟩
+  | alignmentNotPadLast (n : Nat) : WFFieldAttr ⟨"alignment", [.int n, .str "not", .str "pad_last"]⟩
+  | sortKey (p : String) : IsPropName p → WFFieldAttr ⟨"sort_key", [.str p]⟩
+  | sizeref (p : String) : IsPropName p → WFFieldAttr ⟨"sizeref", [.str p]⟩
+  | sizerefDelta (p : String) (n : Nat) : IsPropName p → WFFieldAttr ⟨"sizeref", [.str p, .int n]⟩
+
+end SymbolVerif.Cats
+
+/-! ### declarations with attributes -/
+
+namespace SymbolVerif.Cats
+open SymbolVerif.Cats.Lexer
+
+/-- an attribute list as the parser produces it: absent, or a non-empty list of attributes of the given kind -/
+inductive WFAttrs (P : Attribute → Prop) : Option (List Attribute) → Prop
+  | none : WFAttrs P none
+  | some (a : Attribute) (as : List Attribute) : (∀ x ∈ a :: as, P x) → WFAttrs P (some (a :: as))
+
+/-- an enum, possibly with `@is_bitwise` lines -/
+inductive WFEnumA : Enum → Prop
+  | mk (name : String) (base : IntType) (values : List EnumValue) (attrs : Option (List Attribute)) :
+      IsTypeName name → WFInt base → (∀ v ∈ values, WFEnumValue v) → WFAttrs WFEnumAttr attrs →
+      WFEnumA { name := name, base := base, values := values, attributes := attrs }
+
+/-- a member, possibly with attribute lines (the grammar allows them on plain fields and on `__value__`) -/
+inductive WFMemberA : Member → Prop
+  | bare (m : Member) : WFMember m → WFMemberA m
+  | plain (name : String) (t : FieldType) (v : FieldValue) (a : Attribute) (as : List Attribute) :
+      IsMemberName name → WFType t → WFValue v → (∀ x ∈ a :: as, WFFieldAttr x) →
+      WFMemberA (.field { name := name, fieldType := t, value := v, attributes := some (a :: as) })
+  | valuePlaceholder (t : FieldType) (v : FieldValue) (a : Attribute) (as : List Attribute) :
+      WFType t → WFValue v → (∀ x ∈ a :: as, WFFieldAttr x) →
+      WFMemberA (.field { name := "__value__", fieldType := t, value := v, attributes := some (a :: as) })
+
+/-- a struct, possibly with attribute lines, whose members may carry attribute lines -/
+inductive WFStructA : Struct → Prop
+  | mk (d : Option String) (name : String) (fields : List Member) (attrs : Option (List Attribute)) :
+      d ∈ structDispositions → IsTypeName name → fields ≠ [] → (∀ m ∈ fields, WFMemberA m) → WFAttrs WFStructAttr attrs →
+      WFStructA { disposition := d, name := name, fields := fields, attributes := attrs }
+
+/-- a declaration without comments; attributes allowed everywhere the grammar has them -/
+inductive WFDeclA : Decl → Prop
+  | alias (a : Alias) : WFAlias a → a.comment = none → WFDeclA (.alias a)
+  | enum (e : Enum) : WFEnumA e → WFDeclA (.enum e)
+  | struct (s : Struct) : WFStructA s → WFDeclA (.struct s)
+
+def WFDeclsA (ds : Schema) : Prop := ∀ d ∈ ds, WFDeclA d
+
+end SymbolVerif.Cats
